@@ -78,6 +78,39 @@ def run_combo(ctx, lib, combo, tc, tc_shared, rng, tot, tagp="c18-"):
         c2[1] += v2[1]
 
 
+def confirm_devs(ctx, tot, known, tc):
+    """known findings: for every deviation an accepting validation used, confirm on an example that the model WITHOUT it
+    rejects the trace; only then the KNOWN-FINDING line is printed.  known: deviation name -> entry of known_findings.json
+    (entries of other properties without also_affects are not in it: their deviation is tolerated silently)."""
+    confirmed = {}
+    for name in sorted(set(d["name"] for d in tot["devlog"]) & set(known)):
+        cands = [d for d in tot["devlog"] if d["name"] == name]
+        for i, cand in enumerate(cands[:8]):
+            wd = ctx.sub("dev-%s-%d" % (name, i))
+            tr = os.path.join(wd, "trace.ndjson")
+            with open(tr, "w") as f:
+                f.write("\n".join(cand["trace"]) + "\n")
+            cfg = os.path.join(wd, "req.cfg")
+            # the deviations this trace was validated with, minus the one in question
+            import re as _re
+            base = set(_re.findall(r'"(\w+)"', (cand.get("tc") or tc or {}).get("Dev", "")))
+            others = "{" + ", ".join('"%s"' % d for d in sorted(base - {name})) + "}"
+            tlc.write_cfg(cfg, spec="TSpec", constants=dict(cand.get("tc", tc), Dev=others), constraint="TrackMax",
+                          postcondition="TraceAccepted")
+            try:
+                v = tlc.validate_trace(cand.get("tmod", "Trace_Conc"), cfg, tr, wd, len(cand["trace"]))
+            except tlc.TLCBroken as e:
+                raise Broken(str(e))
+            if not v.accepted:
+                e = known[name]
+                confirmed[name] = dict(candidates=len(cands), example=cand["trace"][:v.matched + 1][-14:],
+                                       schedule=cand.get("behaviour") if cand.get("behaviour") != ["free"] else "free-running")
+                ctx.known_finding(e["id"], "%s [up to %d executions; e.g. without this deviation the model rejects: %s]"
+                                  % (e["scope"], len(cands), cand["trace"][v.matched][:200]))
+                break
+    return confirmed
+
+
 def new_tot():
     return dict(states=0, transitions=0, schedules=0, paths_total=0, executions=0, accepted=0, events=0, devlog=[],
                 lock_points={}, calls={})
@@ -86,8 +119,8 @@ def new_tot():
 def c18(ctx):
     lib = build.libpath(build.build("ossl"))
     quick = ctx.tier == "quick"
-    known = {e["deviation"]: e for e in active_known(ctx.known) if e.get("deviation") in ("EarlyVisible", "TornRead", "LogoutSplit")}
-    dev = "{" + ", ".join('"%s"' % d for d in sorted(known) if d != "LogoutSplit") + "}"
+    known = {e["deviation"]: e for e in active_known(ctx.known) if e.get("deviation") in ("EarlyVisible", "TornRead", "LogoutSplit", "TransactionBusy", "DirtyRead", "TornWrite")}
+    dev = "{" + ", ".join('"%s"' % d for d in sorted(known) if d not in ("LogoutSplit", "TransactionBusy", "DirtyRead", "TornWrite")) + "}"
     tc = dict(Threads=THREADS, Ids=IDS, Dev=dev)
     rng = random.Random(ctx.seed)
     # (programs, preemption bound, cap on schedules, full: EVERY lock and unlock callback is a scheduling point)
@@ -99,12 +132,12 @@ def c18(ctx):
               ("C,A", 2, 8000, False), ("B,B", 2, 5000, False), ("E,B", 2, 5000, False), ("s,f", 2, 8000, False),
               ("a,b,d", 2, 8000, False), ("a,a,b", 2, 8000, False)]
     # the shared token state (login state, last-session logout, the user PIN): ConcTok, a linearizability check
-    # (quick: the PIN, unwrap, sensitive-key and SO combinations run in the checks of C04, C06, C02 and C03)
+    # (quick: the PIN, unwrap, sensitive-key, SO and token-key combinations run in the checks of C04, C06, C02, C03 and C09)
     shared = [("Lc,Lo", 2, 2500, False), ("Lv,Ll", 2, 2000, False)] if quick else \
              [("Lc,Lo", 2, 30000, False), ("Lc,Lo", 2, 20000, True), ("Lp,Lq", 2, 20000, True), ("Lr,Lx", 2, 20000, False),
-              ("Lv,Ll", 2, 20000, False), ("Lu,Ll", 2, 20000, False), ("Lu,Lo", 2, 20000, False), ("Ls,Lg", 2, 30000, False), ("Ls,Lg", 1, 20000, True), ("Lz,Ly", 2, 20000, False), ("Lz,Lo", 2, 20000, False), ("Lc,Lv,Ll", 2, 20000, False), ("Lp,Lq,Lr", 2, 20000, False), ("Lr,Lx", 1, 10000, True)]
+              ("Lv,Ll", 2, 20000, False), ("Lu,Ll", 2, 20000, False), ("Lu,Lo", 2, 20000, False), ("Ls,Lg", 2, 30000, False), ("Ls,Lg", 1, 20000, True), ("Lt2,Lw2", 2, 30000, False), ("Lz,Ly", 2, 20000, False), ("Lz,Lo", 2, 20000, False), ("Lc,Lv,Ll", 2, 20000, False), ("Lp,Lq,Lr", 2, 20000, False), ("Lr,Lx", 1, 10000, True)]
     tc_shared = dict(Threads=THREADS, PinSyms='{"P0", "P1", "P2", "PX", "SO"}', InitPin='"P0"',
-                     Dev="{" + ", ".join('"%s"' % d for d in sorted(known) if d == "LogoutSplit") + "}")
+                     Dev="{" + ", ".join('"%s"' % d for d in sorted(known) if d in ("LogoutSplit", "TransactionBusy", "DirtyRead", "TornWrite")) + "}")
     combos = combos + [c + (True,) for c in shared]
     only = [x for x in os.environ.get("VERIF_ONLY", "").split(";") if x]          # development runs
     if only:
@@ -132,31 +165,7 @@ def c18(ctx):
         for k in free:
             free[k] += getattr(st, k)
         tot["devlog"] += st.devlog
-    # known findings: confirm on an example each that the required model rejects it
-    confirmed = {}
-    for name in sorted(set(d["name"] for d in tot["devlog"])):
-        cands = [d for d in tot["devlog"] if d["name"] == name]
-        for i, cand in enumerate(cands[:8]):
-            wd = ctx.sub("dev-%s-%d" % (name, i))
-            tr = os.path.join(wd, "trace.ndjson")
-            with open(tr, "w") as f:
-                f.write("\n".join(cand["trace"]) + "\n")
-            cfg = os.path.join(wd, "req.cfg")
-            mine = ("LogoutSplit",) if cand.get("tmod") == "Trace_ConcTok" else ("EarlyVisible", "TornRead")
-            others = "{" + ", ".join('"%s"' % d for d in sorted(known) if d != name and d in mine) + "}"
-            tlc.write_cfg(cfg, spec="TSpec", constants=dict(cand.get("tc", tc), Dev=others), constraint="TrackMax",
-                          postcondition="TraceAccepted")
-            try:
-                v = tlc.validate_trace(cand.get("tmod", "Trace_Conc"), cfg, tr, wd, len(cand["trace"]))
-            except tlc.TLCBroken as e:
-                raise Broken(str(e))
-            if not v.accepted:
-                e = known[name]
-                confirmed[name] = dict(candidates=len(cands), example=cand["trace"][:v.matched + 1][-14:],
-                                       schedule=cand.get("behaviour") if cand.get("behaviour") != ["free"] else "free-running")
-                ctx.known_finding(e["id"], "%s [up to %d executions; e.g. without this deviation the model rejects: %s]"
-                                  % (e["scope"], len(cands), cand["trace"][v.matched][:200]))
-                break
+    confirmed = confirm_devs(ctx, tot, known, tc)
     ctx.coverage.update(dict(
         states=tot["states"], transitions=tot["transitions"], schedules_tried=tot["schedules"] + free["executions"],
         traces_validated_against_impl=tot["accepted"] + free["accepted"], executions=tot["executions"] + free["executions"],
